@@ -156,7 +156,12 @@ def walcrashOpWith (tolerateDup : Bool) : Op := fun args =>
       let mid := jS.startsWith "m"
       let jS' := if mid then String.ofList (jS.toList.drop 1) else jS
       match parseNat jS' with
-      | none => s!"M:*\tS:{spec}\tH:{if jS == "u" then "unsynced_catalog_data" else ""}"
+      | none =>
+        -- power-loss images: `u` = a header / category_name write is among the unsynced data,
+        -- `g` = the durable WAL has a hole or a torn record before surviving later records
+        let hy := (if jS.contains 'u' then ["unsynced_catalog_data"] else []) ++
+                  (if jS.contains 'g' then ["wal_tail_garbage"] else [])
+        s!"M:*\tS:{spec}\tH:{",".intercalate hy}"
       | some j =>
         if mid then s!"M:*\tS:{spec}\tH:var_crash_between_data_and_index" else
         let predict := fun (extra : List Effect) (bs : List BInfo) =>
